@@ -152,6 +152,33 @@ def _projection(w, seed, spec, patched):
                 fails.append(f'{tag}: (P.T @ P).reduce() raised {type(e).__name__}: {e}')
         if len(fails) > 4:
             break
+    fails += _high_resolution(seed)
+    return fails
+
+
+def _high_resolution(seed):
+    """pixel numbers beyond 2**24 (nside >= 2048, southern part of the map): the landscape's index of a direction is
+    the HEALPix pixel containing it — no map is allocated, only the indices are compared"""
+    import jax.numpy as jnp
+    import jax_healpy as jhp
+    from furax.landscapes import HealpixLandscape
+    fails = []
+    rng = np.random.default_rng(seed + 99)
+    for nside in (2048, 4096):
+        theta = jnp.asarray(rng.uniform(2.0, 3.1, 64).astype(np.float32))
+        phi = jnp.asarray(rng.uniform(0, 2 * np.pi, 64).astype(np.float32))
+        want = np.asarray(jhp.ang2pix(nside, theta, phi)).astype(np.int64)
+        for dtype in (np.float32, np.float64):
+            try:
+                got = np.asarray(HealpixLandscape(nside, 'I', dtype).world2index(theta, phi)).astype(np.int64)
+            except Exception as e:      # noqa: BLE001
+                fails.append(f'HealpixLandscape(nside={nside}).world2index raised {type(e).__name__}: {e}')
+                continue
+            bad = np.flatnonzero(got.ravel() != want.ravel())
+            if bad.size:
+                k = int(bad[0])
+                fails.append(f'HealpixLandscape(nside={nside}, I, {np.dtype(dtype).name}).world2index: {bad.size}/64 directions '
+                             f'get another pixel than ang2pix (e.g. {int(got.ravel()[k])} instead of {int(want.ravel()[k])})')
     return fails
 
 
